@@ -60,9 +60,19 @@ func VerifC09Step(d Disk, n int, useGlobal bool) {
 		if !panicked {
 			verifAssert("read/len", len(r) == int(BlockSize))
 			verifAssert("read/value", verifBytesEq(r, model[a]))
-			// the returned buffer is caller-owned
-			r[0] ^= 0xff
-			r[BlockSize-1] ^= 0xff
+			// the returned buffer is caller-owned: a second read is unaffected by changes to the first
+			// result, and does not disturb it
+			keep := verifClone(r)
+			var r2 Block
+			if useGlobal {
+				r2 = Read(a)
+			} else {
+				r2 = d.Read(a)
+			}
+			r2[0] ^= 0xff
+			r2[BlockSize-1] ^= 0xff
+			verifAssert("read/results-independent", verifBytesEq(r, keep))
+			r[1] ^= 0xff
 		}
 		verifFrame(d, n, model, "read/frame")
 		verifCover("c09/read")
